@@ -32,9 +32,11 @@ def run(ctx: Ctx):
     unknown_refs(ctx)
 
 
-def _model(with_insertions: bool) -> Dict[str, Any]:
+def _model(with_insertions: bool, items=None) -> Dict[str, Any]:
     """A model array dimension: items (alias, raw element id, sub-variable id, is-insertion)."""
-    if not with_insertions:
+    if items is not None:
+        pass
+    elif not with_insertions:
         items = [("A0", 1, "0001", False), ("A1", 2, "0002", False), ("A2", 3, "0003", False)]
     else:
         # zz9 places derived items among the real ones; raw ids are positions incl. insertions
@@ -99,9 +101,9 @@ def cascade_array(ctx: Ctx):
     n = 0
     bad: List[str] = []
     undec = None
-    for with_ins in (False, True):
-        model = _model(with_ins)
-        tag = "MR with inserted items" if with_ins else "array"
+    for with_ins, shifted in ((False, False), (False, True), (True, False)):
+        model = _model(with_ins) if not shifted else _model(False, _SHIFTED["items"])
+        tag = "MR with inserted items" if with_ins else ("array, digit-string sub-variable ids" if shifted else "array")
         cases: List[Tuple[str, Any, Optional[str]]] = []
         for k, (alias, rid, sid, ins) in enumerate(model["items"]):
             for kind, spelling in _spellings(model, k):
@@ -258,7 +260,70 @@ def late_translations(ctx: Ctx):
         if idx_calls:
             ctx.ob("late-translation.pass-through", f"{MA}::{cname}.{member}", raw or "index(translate_element_id(...))", "the id looked up among the shimmed element ids went through translate_element_id", not raw, "element ids of an array dimension are aliases after shimming; an untranslated sub-variable id / element id matches nothing")
         ctx.count("late translations")
+        if spec_attr == "element_id":
+            _late_model(ctx, f"{MA}::{cname}.{member}", e, dim)
     ctx.require_min("late translations", 3)
+    ctx.require_min("late-translation spelling cases", 20)
+
+
+_SHIFTED = {
+    # sub-variable ids that are all-digit strings whose VALUE is another item's element id: "0001" names item 1,
+    # but int("0001") == 1 is the element id of item 0
+    "items": [("A0", 1, "0000", False), ("A1", 2, "0001", False), ("A2", 3, "0002", False)],
+}
+
+
+def _late_model(ctx: Ctx, where: str, e: ast.expr, dim: str):
+    """DECTAB over the WHOLE late translation (whatever is done to the reference before and after the cascade):
+    every spelling of item k of the opposing array dimension must select index k."""
+    ci = ctx.repo.cls(DIM, "_ElementIdShim")
+    cascade = SUMMARIZER.summarize(ctx.repo.lookup(ci, "translate_element_id").node)
+    models = [_model(False), _model(False, _SHIFTED["items"])]
+    bad: List[str] = []
+    n = 0
+    for mi, model in enumerate(models):
+        aliases = tuple(a for a, *_ in model["items"])
+        for k in range(len(model["items"])):
+            for kind, spelling in _spellings(model, k):
+                if kind.startswith("position"):
+                    continue
+
+                def atoms(x: ast.expr, spelling=spelling):
+                    t = u(x)
+                    if t == "self._order_spec.element_id":
+                        return spelling
+                    if t == dim:
+                        return {".element_ids": aliases}
+                    raise KeyError
+
+                class _I(ModelInterp):
+                    def _call(self, c: ast.Call, it):
+                        if isinstance(c.func, ast.Attribute) and c.func.attr == "translate_element_id" and u(c.func.value) == dim and len(c.args) == 1:
+                            return _eval_translate(ctx, cascade, model, self.ev(c.args[0]), False)
+                        return super()._call(c, it)
+
+                    def ev(self, x):
+                        # nested interpreters created by the base class must keep the override
+                        return super().ev(x)
+
+                n += 1
+                try:
+                    got = _I(atoms).ev(e)
+                except Raises as r:
+                    bad.append(f"{kind} of item {k} ({spelling!r}) raises {r.etype}")
+                    continue
+                except DTop as t:
+                    ctx.undecided("late-translation.model", where, "DECTAB: " + str(t), "index of the referenced item")
+                    ctx.count("late-translation spelling cases", n)
+                    return
+                if got != k:
+                    bad.append(f"{kind} of item {k} ({spelling!r}) selects index {got!r}")
+    ctx.count("late-translation spelling cases", n)
+    if bad:
+        ctx.violated("late-translation.model", where, "; ".join(bad[:4]) + (f" ... ({len(bad)} cases)" if len(bad) > 4 else ""), "every spelling of item k selects index k",
+                     "whatever is done to the reference before the cascade changes which rule captures it")
+    else:
+        ctx.held("late-translation.model", where, f"{n} (model, item, spelling) cases select the referenced item", "every spelling of item k selects index k")
 
 
 def element_id(ctx: Ctx):
